@@ -23,7 +23,7 @@ LEVEL_NOTE = ('Trusted: Lean kernel, py2lean subset semantics, NumPy slicing/bro
               'Field(data=[]) whose cached extent is (0,0,0,0) — the model treats it as the zero field (recorded under "empty" in the '
               'implementation output, not judged).')
 TECHNIQUE = 'Lean 4 proof (omega/induction) over translator-regenerated index kernel + hand model with differential correspondence'
-GEN = ['Extent', 'FieldIdx', 'FieldMerge']
+GEN = ['Extent', 'FieldIdx', 'FieldMerge', 'FieldDispatch']
 OPS = ['C06']
 RULE = ('cases: extent pairs, bounding boxes (boundary) of 1..5 fields incl. wholly negative, field products (array/array, '
         'scalar/array, scalar/scalar, 0-d), merges (_merge and public merge with both enforce_overlap values, equal/different '
